@@ -1193,6 +1193,8 @@ fn witness_corpus() -> Vec<(&'static str, &'static str, &'static str)> {
         ("w-clean-before", "F0.3.4", "LEARN,ue,ug,uh,ug,uh,ug,uh,ug,uh"),
         ("w-clean-restart", "F0.3.4", "ue,ug,LEARN,ue,uh,ug,uh,ug,uh,ug,uh,ug,uh"),
         ("w-clean-cached-only", "F0.3.4", "ue,uh,LEARN,ug,ue,ug"),
+        // has_next = 0 drops the exhausted iterator: later calls touch nothing even after a mutation
+        ("w-clean-exhausted", "F0.3.4", "ue,uh,ug,uh,ug,uh,ug,uh,LEARN,ug,ug,uh,ug"),
     ]
     .into_iter()
     .map(|(a, b, c)| (a, b, Box::leak(c.replace("LEARN", learn).into_boxed_str()) as &'static str))
